@@ -289,6 +289,7 @@ def resolve(model: RefDir, op):
                 'quantum': q, 'parent': parent_type(model, r[3] + r[1]),
                 'expect': 'accept'}
     if kind in ('derived_type', 'dup_dimension'):
+        rerun = None
         cands = [t for t in types]
         if kind == 'dup_dimension':
             taken = [t for t in types if not model.types[t]['base']] or \
@@ -297,6 +298,12 @@ def resolve(model: RefDir, op):
             if tgt is None:
                 return None
             items = _rewrite_dim(model, tgt, r[1], r[2])
+            if r[3] % 3 == 0 and model.types[tgt].get('items') and \
+                    model.types[tgt].get('clsname'):
+                # the very same class statement executed once more (a
+                # module reloaded, a notebook cell run again)
+                rerun = tgt
+                items = [list(it) for it in model.types[tgt]['items']]
         else:
             k = 1 + r[0] % 3
             items = []
@@ -332,7 +339,8 @@ def resolve(model: RefDir, op):
         else:
             expect = 'accept'
         return {'a': 'derived_type', 'name': f'D{n}',
-                'clsname': class_name(model, f'D{n}', r[7]),
+                'clsname': model.types[rerun]['clsname'] if rerun else
+                class_name(model, f'D{n}', r[7]),
                 'parent': parent_type(model, r[7] + r[9]),
                 'items': items,
                 'style': r[11] % 3, 'ref_sym': ref_sym, 'auto_ref': all_ref
@@ -671,6 +679,14 @@ def resolve(model: RefDir, op):
                 'expect': 'reject', 'bad': 'wrong_type'}
     if kind == 'evict':
         return {'a': 'evict', 'expect': 'accept'}
+    if kind == 'term_noise':
+        # term arithmetic that declares nothing: terms with plain ints and
+        # floats (also to negative powers), hashed, rendered, compared
+        u = _pick(model.uorder, r[0])
+        if u is None:
+            return None
+        return {'a': 'term_noise', 'unit': u, 'n': [10, 2, 3, 1000][r[1] % 4],
+                'e': [-1, -2, 1, -3][r[2] % 4], 'expect': 'accept'}
     raise ValueError(f"unknown intent {op}")
 
 
@@ -849,11 +865,15 @@ class Env:
         return (self.types[p],) if p and p in self.types else \
             (self.Quantity,)
 
-    def namespace(self, name):
+    def namespace(self, name, clsname=None):
         """The class namespace handed to the metaclass: a fresh dict, or -
         as a table-driven generator of types would do - one and the same
-        dict object for many classes."""
-        return self.shared_ns if len(name) % 2 else {}
+        dict object for many classes.  A fresh one looks like what a
+        module-level class statement produces."""
+        if len(name) % 2:
+            return self.shared_ns
+        return {'__module__': 'user_declarations',
+                '__qualname__': clsname or name}
 
 
 def lib_quantum(q, salt):
@@ -957,7 +977,8 @@ def perform(env: Env, act):
             if act['quantum'] is not None:
                 kw['quantum'] = lib_quantum(act['quantum'], len(act['name']))
             cls = QuantityMeta(act.get('clsname') or act['name'],
-                               env.bases(act), env.namespace(act['name']),
+                               env.bases(act), env.namespace(
+                                   act['name'], act.get('clsname')),
                                **kw)
             env.types[act['name']] = cls
             if cls.ref_unit is not None:
@@ -974,7 +995,8 @@ def perform(env: Env, act):
             if act['quantum'] is not None:
                 kw['quantum'] = lib_quantum(act['quantum'], len(act['name']))
             cls = QuantityMeta(act.get('clsname') or act['name'],
-                               env.bases(act), env.namespace(act['name']),
+                               env.bases(act), env.namespace(
+                                   act['name'], act.get('clsname')),
                                **kw)
             env.types[act['name']] = cls
             info = {}
@@ -1079,6 +1101,18 @@ def perform(env: Env, act):
                 kw['smallest_fraction'] = act['sf']
             u = Money.new_unit(lib_sym(act['sym']), 'cur ' + act['sym'], **kw)
             env.units[u.symbol] = u
+            return 'ok', {}
+        if a == 'term_noise':
+            u, n_, e_ = env.units[act['unit']], act['n'], act['e']
+            for fn in (lambda: hash(Term([(u, 1)]) / n_),
+                       lambda: hash(Term([(n_, e_), (u, 2)])),
+                       lambda: str(Term([(float(n_), e_), (u, 1)])),
+                       lambda: Term([(u, 1)]) * n_ == Term([(n_, 1), (u, 1)]),
+                       lambda: Term([(n_, e_), (u, -1)]).normalized()):
+                try:
+                    fn()
+                except Exception:       # noqa: nothing is declared here
+                    pass
             return 'ok', {}
         if a == 'evict':
             # memo eviction reaches private names; if a refactoring renamed
